@@ -81,6 +81,13 @@ def lookalike_case(rep, drv, rnd, i):
     extra.append(('_primary', [('V', 'X')], ('call', 'lk', [('V', 'X'), ('A', 'wide')]), True))
     extra.append(('viaprimary', [('V', 'X')], ('call', '_primary', [('V', 'X')]), True))
 
+    # conjunctions nested to the left, twice: the goals run in the order they are written
+    extra += [('o1', [('A', 'p')], 'tru'), ('o1', [('A', 'q')], 'tru'), ('o2', [('N', '1')], 'tru'), ('o2', [('N', '2')], 'tru'),
+              ('ord4', [('V', 'A'), ('V', 'B'), ('V', 'C'), ('V', 'D')],
+               ('conj', ('conj', ('conj', ('call', 'o1', [('V', 'A')]), ('call', 'o2', [('V', 'B')])), ('call', 'o1', [('V', 'C')])), ('call', 'o2', [('V', 'D')])), True),
+              ('ord5', [('V', 'A'), ('V', 'B'), ('V', 'C')],
+               ('conj', ('conj', ('call', 'o2', [('V', 'A')]), ('conj', ('conj', ('call', 'o1', [('V', 'B')]), 'tru'), ('call', 'o2', [('V', 'C')]))), 'tru'), True)]
+
     def swap(t):
         if t[0] == 'A' and rnd.random() < 0.25:
             return ('A', _plain(rnd.choice(cands)))
@@ -98,6 +105,8 @@ def lookalike_case(rep, drv, rnd, i):
     ops.append(('query', 'lk', ('all',), [[Sym('v'), 0], [Sym('v'), 1]]))
     ops.append(('query', 'lk', ('all',), [[Sym('a'), wide], [Sym('v'), 1]]))
     ops.append(('query', 'viaprimary', ('all',), [[Sym('v'), 0]]))
+    ops.append(('query', 'ord4', ('all',), [[Sym('v'), k_] for k_ in range(4)]))
+    ops.append(('query', 'ord5', ('all',), [[Sym('v'), k_] for k_ in range(3)]))
     ops.append(('query', '_primary', ('all',), [[Sym('a'), wide]]))
     rep.count('look-alike-atoms')
     if scen.three_way(rep, drv, ops, 'case %d look-alike atoms' % i) == 'ok':
